@@ -77,7 +77,7 @@ PROPS["C20"] = {
 NOT_APPLICABLE = {}
 
 # verif-guarded hook commits in /repo (add-only)
-HOOK_COMMITS = ["fd0e965", "d11cf72", "46739fb", "981ad0e", "643526d", "e05858a", "edb0adb", "7d5379a", "42d08ad"]
+HOOK_COMMITS = ["fd0e965", "d11cf72", "46739fb", "981ad0e", "643526d", "e05858a", "edb0adb", "7d5379a", "42d08ad", "d63880c", "c52c40e", "cfdc2ec"]
 
 PROPS["C09"] = {
     "modules": ["OxiaVerif.Props.C09", "OxiaVerif.Props.C09OnTree"],
@@ -246,4 +246,84 @@ PROPS["C07"] = {
     "level_note": "Trusted: Lean kernel; extractor rules (single batch, replay start offsets, call sites, reader bound, DisableWAL); Pebble batch/flush atomicity; cluster harness and its crash simulation. Not covered: crash during snapshot install (D-39).",
     "technique": "Lean 4 proof (prefix invariant + replay = remaining suffix, for every prefix length) + regenerated facts + differential correspondence with simulated crashes",
     "design_ref": "DESIGN.md section 6 C07",
+}
+
+PCLUSTER = ("protocol harness: one real server.ShardsDirector per node (leader / follower controllers created and converted by the director itself), "
+            "the coordinator's RPCs routed as internal_rpc_server.go routes them, an in-memory ReplicationRpcProvider whose partitions hold traffic back; "
+            "outputs are compared in settled states (every cursor has delivered what it can)")
+PRULE = ("protocol scripts (3 or 5 nodes, 6-30 steps): elections as the coordinator runs them (new term to every reachable node, majority, highest head wins, BecomeLeader with the other "
+         "answers as followers), client writes (also to nodes that do not lead), partitions and heals of up to a minority, process restarts, late / duplicate NewTerm, stale BecomeLeader and "
+         "AddFollower requests; per-node dumps of controller kind, term, status, WAL entries (term:payload), leader commit offset and cursor acknowledgements; reads on leaders. Scripts that "
+         "trigger a snapshot transfer or do not settle are not compared (~).")
+REPLTRUST = [KERNEL, EXTRACT, CORR, PCLUSTER,
+             "M-Repl makes every RPC atomic and replaces the asynchronous replication by 'settle' (all deliverable entries delivered, acknowledged and counted); interleavings inside a stream, the Go scheduler and gRPC are not modelled",
+             "the coordinator is represented by its decision functions (answers needed, candidate filter, highest head) tied by facts; its metadata store and its own crashes are not modelled"]
+
+PROPS["C03"] = {
+    "modules": ["OxiaVerif.Props.C03"],
+    "facts": ["truncateComparesWithFollowerTermEntry", "cursorStartsAtTruncatedHead", "followerTruncateOnlyWhenFenced", "followerAppendChecksTermAlways",
+              "lateRequestCannotConvertLeader", "snapshotChunkTermMustEqual", "walReaderServesOnlySyncedEntries", "walSyncCallbacksOnlyForFlushedEntries"],
+    "trusted_base": REPLTRUST,
+    "assumptions": ["C03_attach_compatible assumes the log-matching property in the form 'every log is cut from one log per term' (Conforms) and the follower's true head (C04); that this is an invariant of all runs is not proved (it is what the differential runs and the oracle check), and known finding D-40 is a history in which two leaders hold different committed entries",
+                    "acknowledgement after WAL sync is tied by the facts about the reader bound and runSync, durability itself is the WAL's (C09/C10)"],
+    "rule": PRULE + " Oracle: every follower that acknowledged offset o to the leader of its term holds the leader's entry at every offset up to o; two nodes that lead hold the same entries up to the smaller commit offset; the commit offset is within the log.",
+    "level_text": "Machine-checked proof (Lean 4) on M-Repl: for every leader log, starting offset and number of (re-)deliveries, the follower's append loop started on a log compatible with the leader's keeps it compatible, only extends it, never moves the acknowledged offset back and leaves everything at or below it equal to the leader's entries (C03_stream_keeps_acked_prefix_equal, induction over the deliveries; duplicates are acknowledged without a look at the entry, which is why compatibility is needed: proved counterexample); a follower of another term takes nothing; the attach decision of truncateFollowerIfNeeded as found in the tree yields a compatible log and a cursor position up to which the logs are equal, in all its cases (same term, older term below / beyond the leader's last entry of that term, no entry of that term), from the log-matching property (C03_attach_compatible); proved counterexample for the seeded comparison. Tied to the code by eight facts and by differential runs.",
+    "level_note": "Trusted: Lean kernel; extractor rules; protocol harness. Assumed: log matching as an invariant (checked by the oracle on every settled state, not proved). Known finding D-40b (committed offset holds different entries on two successive leaders).",
+    "technique": "Lean 4 proof (stream induction, case analysis of the attach decision) + regenerated facts + differential correspondence on real controllers",
+    "design_ref": "DESIGN.md section 6 C03",
+}
+
+PROPS["C04"] = {
+    "modules": ["OxiaVerif.Props.C04"],
+    "facts": ["newTermRejectsLowerAndPersistsFirst", "newTermWaitsForInFlightAppends", "writeChecksLeaderStatusBeforeAlloc", "writeHoldsAppendLockAcrossAllocAndAppend",
+              "followerAppendChecksTermAlways", "followerTruncateOnlyWhenFenced", "snapshotChunkTermMustEqual", "lateRequestCannotConvertLeader", "becomeLeaderOnlyFromFencedSameTerm"],
+    "trusted_base": REPLTRUST + ["the race between a client write and NewTerm is driven through the yield point leader.write.allocated; the follower's sync goroutine (WAL sync outside the controller lock) is not driven"],
+    "assumptions": ["each RPC is atomic (the controller lock), except the leader write, whose two halves are ordered by the append lock (fact)"],
+    "rule": PRULE + " Added: a client write held between the leader's status check and its WAL append while a NewTerm request for that node is served (the node cut off from its followers); oracle: the head the node answers equals the end of its log afterwards, the log of a fenced node does not grow, writes on fenced nodes are refused.",
+    "level_text": "Machine-checked proof (Lean 4) on M-Repl: a successful NewTerm leaves the node fenced in the new term with its log untouched and reports exactly the end of that log; a lower term is always refused; a node that is not leader refuses client writes and nothing changes; appends and truncations of a leader of another term are neither applied nor acknowledged; a request of another term cannot turn a leader controller into a follower; with NewTerm ordered after in-flight appends (fact) the reported head is final (C04_reported_head_is_final) - proved counterexample without the lock (D-42). Tied to the code by nine facts and by differential runs with the race driven through a yield point.",
+    "level_note": "Trusted: Lean kernel; extractor rules; protocol harness; yield hook. Fixed D-42 (write between status check and append outlived the fencing).",
+    "technique": "Lean 4 proof (per-RPC theorems on the protocol model) + regenerated facts + differential correspondence with a scheduled race",
+    "design_ref": "DESIGN.md section 6 C04",
+}
+
+PROPS["C05"] = {
+    "modules": ["OxiaVerif.Props.C05"],
+    "facts": ["coordinatorPersistsTermBeforeNewTerm", "newTermQuorumMajorityOverEnsembleAndRemoved", "selectNewLeaderTakesMaxTermThenOffset", "newTermRejectsLowerAndPersistsFirst",
+              "updateTermFlushes", "becomeLeaderOnlyFromFencedSameTerm", "lateRequestCannotConvertLeader", "snapshotChunkTermMustEqual"],
+    "trusted_base": REPLTRUST + ["durability of the term across restarts: fact 'written and flushed before adopted' plus restarts in the scripts; crashes at arbitrary file-system operations are not simulated here"],
+    "assumptions": ["one BecomeLeader per term (the coordinator's discipline; a second BecomeLeader of the same term to another fenced node would be accepted)",
+                    "a crash in the middle of a snapshot installation is not covered (observation D-39 in DESIGN.md)"],
+    "rule": PRULE + " Oracle: a node's term never goes back (also across restarts), at most one node leads a term, an election succeeds only with answers from a majority, the installed leader answered the election.",
+    "level_text": "Machine-checked proof (Lean 4) on M-Repl: the coordinator's choice is one of the candidates and no candidate has a higher head entry, term first, then offset (C05_best_log_wins, by a fold invariant with the order laws of 'better'); BecomeLeader succeeds only on a node fenced in that very term; NewTerm never lowers the term of any node whatever its outcome, and streams / truncations leave terms alone; proved model history for the node-swap election (the removed node counts for the majority but is no candidate). That the term is made durable before it is used (coordinator: metadata store before NewTerm; node: written and flushed before adopted) is tied by facts. Differential runs on real controllers with restarts.",
+    "level_note": "Trusted: Lean kernel; extractor rules (electLeader step order, newTermQuorum, selectNewLeader, NewTerm, UpdateTerm, BecomeLeader); protocol harness. Observation D-39 (term lost by a crash during snapshot install) documented, not claimed.",
+    "technique": "Lean 4 proof (fold invariant for the selection, per-RPC monotonicity) + regenerated facts + differential correspondence",
+    "design_ref": "DESIGN.md section 6 C05",
+}
+
+PROPS["C01"] = {
+    "modules": ["OxiaVerif.Props.C01"],
+    "facts": ["becomeLeaderOnlyFromFencedSameTerm", "trackerCommitsAtRequiredAcks", "walSyncCallbacksOnlyForFlushedEntries", "walReaderServesOnlySyncedEntries",
+              "newTermQuorumMajorityOverEnsembleAndRemoved", "selectNewLeaderTakesMaxTermThenOffset", "truncateComparesWithFollowerTermEntry", "cursorStartsAtTruncatedHead",
+              "coordinatorPersistsTermBeforeNewTerm", "updateTermFlushes", "newTermWaitsForInFlightAppends"],
+    "trusted_base": REPLTRUST,
+    "assumptions": ["the election step is proved for a winner whose head entry is of the acknowledged entry's term; the induction over later terms (leader completeness) is NOT proved: C01 is decided by the partial theorem, the facts and the differential runs",
+                    "disks are kept (C09/C10 for the WAL, C07 for the database); at most a minority is cut off at a time in generated scripts"],
+    "rule": PRULE + " Added: elections over an ensemble with a node being removed (swap) while the leader is away. Oracle: every write acknowledged to the client is in the committed log of, and visible on, the leader of the newest term in every later settled state.",
+    "level_text": "Machine-checked proof (Lean 4), partial: a write is acknowledged only at or below the leader's quorum commit offset (C01_ack_only_after_commit); the election step of leader completeness - a candidate holds the acknowledged entry of term T, the winner's head is not lower (C05) and is an entry of term T, all logs are cut from the per-term logs - implies that the winner holds the entry at the same offset (C01_election_keeps_entry_same_term_partial). Missing for the full statement: the induction over intermediate terms. Proved model history for the node-swap election that loses acknowledged writes (known finding D-41), reproduced on real node controllers. Tied to the code by eleven facts and by differential runs with partitions, restarts and elections.",
+    "level_note": "PARTIAL proof. Trusted: Lean kernel; extractor rules; protocol harness. Known finding D-41 (node swap election can install a leader without acknowledged writes).",
+    "technique": "Lean 4 proof (partial: election step of leader completeness) + regenerated facts + differential correspondence on real controllers",
+    "design_ref": "DESIGN.md section 6 C01",
+}
+
+PROPS["C02"] = {
+    "modules": ["OxiaVerif.Props.C02"],
+    "facts": ["becomeLeaderOnlyFromFencedSameTerm", "trackerCommitsAtRequiredAcks", "leaderLiveUsesWrapperCallbackAndEntryArgs", "writeHoldsAppendLockAcrossAllocAndAppend",
+              "cursorStartsAtTruncatedHead", "versionIdPersistedAfterApply", "selectNewLeaderTakesMaxTermThenOffset"],
+    "trusted_base": REPLTRUST + ["the single-copy semantics of the operations themselves (conditional puts, deletes, range deletes, reads) is M-Db's (C12, C13, C15); exactly-once application is C07, order and own-response C08"],
+    "assumptions": ["linearizability is reduced to: the log order is the sequential history, effects are applied in log order exactly once, a read shows a committed prefix, and what has been shown stays a prefix of what later leaders show; concurrent client histories with overlapping operations are not generated as such (writes are issued one at a time per script)"],
+    "rule": PRULE + " Oracle: the sequence of writes a read shows is extended, never changed, by every later read on any leader (no rolled-back data), and never goes beyond the commit offset.",
+    "level_text": "Machine-checked proof (Lean 4), partial: what a read shows is a prefix of the leader's log bounded by the quorum commit offset, and on one leader a later commit offset only extends it. The cross-leader part of the property is FALSE of the model and of the code for entries that a leader re-commits from older terms: C02_recommitted_entry_rolled_back is the kernel-checked history (known finding D-40), reproduced on the implementation. Tied to the code by seven facts and by differential runs.",
+    "level_note": "PARTIAL proof; the full statement is refuted by D-40 (read-visible, quorum-committed data of an older term rolled back by the next election).",
+    "technique": "Lean 4 proof (partial) with a kernel-checked counterexample + regenerated facts + differential correspondence on real controllers",
+    "design_ref": "DESIGN.md section 6 C02",
 }
